@@ -76,6 +76,14 @@ def replay(ctx: Ctx, recs: List[Dict[str, Any]]) -> None:
                     got = generate_brownian(N, T, init_state=(x0,), sigma=sigma, mu=mu, dt=dt, dtype=DT, engine=scripted_engine([Z]))
                     exp = x0 + mu * dt * ks + sigma * math.sqrt(dt) * S
                     close(ctx, "scheme:brownian", "generate_brownian differs from X0 + mu t + sigma W_t on the supplied normals", got, exp, rs, {"sigma": sigma, "mu": mu, "dt": dt})
+                    # an engine that hands out ONE tensor the caller keeps (common random numbers for two runs): the second run
+                    # must be driven by the same normals
+                    Zown = Z.clone()
+                    same = lambda *size, dtype=None, device=None: Zown
+                    generate_brownian(N, T, init_state=(x0,), sigma=sigma, mu=mu, dt=dt, dtype=DT, engine=same)
+                    again = generate_brownian(N, T, init_state=(x0,), sigma=sigma, mu=mu, dt=dt, dtype=DT, engine=same)
+                    close(ctx, "scheme:brownian:engine-tensor-reused", "a second path driven by the SAME engine tensor differs from the exact solution (the generator consumed the caller's normals in place)",
+                          again, exp, rs, {"sigma": sigma, "mu": mu, "dt": dt})
                 else:
                     got = generate_geometric_brownian(N, T, init_state=(x0,), sigma=sigma, mu=mu, dt=dt, dtype=DT, engine=scripted_engine([Z]))
                     dc = rs[0]["drift"]            # drift coefficients of the specification over (mu, sigma^2/2, lambda E[e^J - 1])
@@ -117,6 +125,9 @@ def replay(ctx: Ctx, recs: List[Dict[str, Any]]) -> None:
                     Zv = torch.cat([Z[:, 1:], torch.full((N, 1), 9.0, dtype=DT)], dim=1)
                     with patched(torch, "randn_like", lambda t, **kw: Zv.clone().to(t.dtype)):
                         got = generate_vasicek(N, T, init_state=(x0,), kappa=kappa, theta=theta, sigma=sigma, dt=dt, dtype=DT)
+                        got_scalar = generate_vasicek(N, T, init_state=x0, kappa=kappa, theta=theta, sigma=sigma, dt=dt, dtype=DT)   # documented scalar form
+                    close(ctx, "scheme:vasicek:scalar-initial-state", "generate_vasicek with the initial state given as a bare scalar differs from the exact Ornstein-Uhlenbeck transition",
+                          got_scalar, exp, rs, {"theta": theta, "x0": x0}, tol=1e-6)
                 except RecursionError:
                     ctx.violation("scheme:vasicek:recursion", "generate_vasicek does not terminate (infinite recursion) unless the initial state equals theta",
                                   {"theta": theta, "x0": x0})
